@@ -203,7 +203,11 @@ func c17SchedRun(c *fx.Ctx) {
 		alone := c17Alone(h)
 		outcomes := map[string]bool{}
 		schedules := map[[20]byte]bool{} // hashes of operation logs: the logs themselves would not fit in memory at bound 3
-		for b := 0; b <= bound; b++ {
+		hb := bound
+		if len(h.mk()) >= 3 && hb > 2 {
+			hb = 2 // three-thread harnesses: bound 3 does not finish in a usable time (one first-level subtree ran > 75 CPU-minutes)
+		}
+		for b := 0; b <= hb; b++ {
 			ex := &sched.Explorer{S: s, Bodies: h.mk, Bound: b, Take: c.Take}
 			ex.Check = func(x *sched.Exec, schedule []int) {
 				key := strings.Join(x.Log, " ")
@@ -429,8 +433,8 @@ func init() {
 		ID:       "C17",
 		Level:    "model_checking",
 		Variants: []string{"-sched", "-race"},
-		Rule: "(scheduler build) 9 closed harnesses of 2-3 threads on shared iterator/builder sessions (first use of the same new struct type, directly and behind interface{}; mutually recursive types requested in opposite orders; unsupported types alone and nested; typed builders on a shared builder session; a child session of a shared parent; three threads mixed): " +
-			"every interleaving of the hooked sync.Map / sync.WaitGroup operations with at most 2 (quick) / 3 (thorough) preemptions is executed on the real code under a cooperative scheduler (WaitGroup.Wait modelled as blocking); oracle: no deadlock and every thread returns exactly what it returns when run alone on fresh sessions; states = distinct schedules executed, transitions = scheduling decisions; " +
+		Rule: "(scheduler build) 11 closed harnesses of 2-3 threads on shared iterator/builder sessions (first use of the same new struct type, directly and behind interface{}; mutually recursive types requested in opposite orders; unsupported types alone and nested; an unsupported self-referential type then its pointer; typed builders on a shared builder session; a child session of a shared parent; three threads mixed): " +
+			"every interleaving of the hooked sync.Map / sync.WaitGroup operations with at most 2 (quick) / 3 (thorough; 2 for the three-thread harnesses) preemptions is executed on the real code under a cooperative scheduler (WaitGroup.Wait modelled as blocking); oracle: no deadlock and every thread returns exactly what it returns when run alone on fresh sessions; states = distinct schedules executed, transitions = scheduling decisions; " +
 			"(race build) the same bodies plus 8 goroutines with separate marshalers/unmarshalers/validators run free under the Go race detector with GOMAXPROCS 2 and 16 — a sampling of schedules, any race report or differing result is a violation; distinct_nontrivial = distinct schedules",
 		Assumptions: []string{"the cooperative scheduler interleaves only at the hooked synchronisation operations of iterator/session.go and builder/session.go (the only ones in the library); unsynchronised accesses are the race build's job",
 			"the race half samples schedules (free-running), it is not exhaustive", "preemption-bounded: schedules needing more preemptions than the bound are not covered"},
